@@ -381,7 +381,7 @@ def tasks(tier, seed):
         if sk.name == 'p222-falsy-labels' and tier == 'quick':
             continue
         for nb in (2, 3):
-            if nb == 3 and (sk.name != 'p212' if tier == 'quick' else len(sk.m.states) == 3):
+            if nb == 3 and (sk.name != 'p212' if tier == 'quick' else (len(sk.m.states) == 3 or sk.name == 'p222-tiger')):
                 continue      # argmax orderings over (actions x observations x belief points): path explosion
             T.append(Task('pbvi/cut/%s/nb%d' % (sk.name, nb), h_pbvi_cut, (sk, nb, 1000), tier='B', max_paths=6000, deadline_s=500))
         T.append(Task('pbvi/unrolled/%s/h1' % sk.name, h_pbvi_unrolled, (sk, 2, 1), tier='B', max_paths=3000))
